@@ -159,6 +159,9 @@ static struct op base_ops[] = {
 	{NULL, NULL}
 };
 extern struct op more_ops[];
+#ifdef WITH_TS
+extern struct op ts_ops[];
+#endif
 #ifdef WITH_H5
 extern struct op h5_ops[];
 #endif
@@ -203,6 +206,9 @@ int main(int argc, char** argv)
 		prime_heap();
 		for (struct op* o = base_ops; o->name && !found; o++) if (!strcmp(o->name, opname)) { o->fn(n, args); found = 1; }
 		for (struct op* o = more_ops; o->name && !found; o++) if (!strcmp(o->name, opname)) { o->fn(n, args); found = 1; }
+#ifdef WITH_TS
+		for (struct op* o = ts_ops; o->name && !found; o++) if (!strcmp(o->name, opname)) { o->fn(n, args); found = 1; }
+#endif
 #ifdef WITH_H5
 		for (struct op* o = h5_ops; o->name && !found; o++) if (!strcmp(o->name, opname)) { o->fn(n, args); found = 1; }
 #endif
